@@ -505,6 +505,48 @@ theorem varFind_iff (s : Schema) (an : String) (fuel : Nat) (en : String) (hf : 
         (by simp only [List.length_cons, List.length_map, List.length_singleton, List.length_nil]; omega)
       exact closed_reach hc hmono hr
 
+theorem namedAttr_foldl_true (s : Schema) (an : String) (fuel : Nat) : ∀ (l : List String) (acc : Option Bool),
+    l.foldl (fun acc sup => match acc with
+      | none => none
+      | some true => some true
+      | some false => namedAttr s an fuel sup) acc = some true →
+    acc = some true ∨ ∃ sup ∈ l, namedAttr s an fuel sup = some true
+  | [], acc, h => Or.inl (by simpa using h)
+  | x :: xs, acc, h => by
+    simp only [List.foldl_cons] at h
+    rcases namedAttr_foldl_true s an fuel xs _ h with h1 | ⟨sup, hs, hv⟩
+    · cases acc with
+      | none => simp at h1
+      | some b =>
+        cases b with
+        | true => exact Or.inl rfl
+        | false => exact Or.inr ⟨x, List.mem_cons_self .., by simpa using h1⟩
+    · exact Or.inr ⟨sup, List.mem_cons_of_mem _ hs, hv⟩
+
+/-- **`ENTITYget_named_attribute` finds only what is there** (any fuel, any graph): when the look-up behind `SELF.a` / an
+    unqualified UNIQUE reference succeeds, the entity itself or an entity reachable from it through `SUBTYPE OF` declares `a` -/
+theorem namedAttr_sound (s : Schema) (an : String) : ∀ (fuel : Nat) (en : String), namedAttr s an fuel en = some true →
+    ∃ x, ReachRefl (superGraph s) en x ∧ ownsAttr s an x = true
+  | 0, _, h => by simp [namedAttr] at h
+  | fuel + 1, en, h => by
+    simp only [namedAttr] at h
+    cases hf : findEntity s en with
+    | none => rw [hf] at h; simp at h
+    | some e =>
+      rw [hf] at h
+      simp only at h
+      by_cases hown : e.attrs.any (fun a => a.name = an) = true
+      · exact ⟨en, Or.inl rfl, by simp [ownsAttr, hf, hown]⟩
+      · simp only [hown, Bool.false_eq_true, if_false] at h
+        rcases namedAttr_foldl_true s an fuel _ _ h with h1 | ⟨sup, hs, hv⟩
+        · cases h1
+        · obtain ⟨x, hr, ho⟩ := namedAttr_sound s an fuel sup hv
+          have hedge : sup ∈ superGraph s en := by simp [superGraph, hf, hs]
+          refine ⟨x, Or.inr ?_, ho⟩
+          rcases hr with rfl | hr
+          · exact .step hedge
+          · exact .trans hedge hr
+
 /-- **overloaded attribute, independently of the look-up function**: with the fuel the pass uses, `NoOverload` says that no new
     attribute of `e` has a second declaration — in a direct supertype or in any entity reachable from one through `SUBTYPE OF` -/
 theorem noOverload_iff_reach (s : Schema) (e : Entity) :
